@@ -34,9 +34,15 @@ def build(reg):
 def _load_known():
     if not os.path.exists(KNOWN):
         return {}
+    out = {}
     with open(KNOWN) as f:
-        return {k["obligation"]: k for k in json.load(f).get("findings", [])
-                if k.get("property") == ID and k.get("status") == "open"}
+        for k in json.load(f).get("findings", []):
+            if k.get("property") == ID and k.get("status") == "open":
+                # exact obligation name(s); "obligations" (a list) is accepted next to "obligation"
+                for name in [k.get("obligation")] + list(k.get("obligations", [])):
+                    if name:
+                        out[name] = k
+    return out
 
 
 def _spawn(tier, seed, repo_root):
